@@ -159,6 +159,10 @@ def run(repo: Repo, rep: Report, tier: str) -> None:
         # the raise carries status and response
         for r in raises:
             call = r.ast.exc if isinstance(r.ast.exc, ast.Call) else None  # type: ignore[union-attr]
+            if call is None and isinstance(r.ast.exc, ast.Name):  # type: ignore[union-attr]
+                # `err = ErrorClass(...)` ... `raise err` (e.g. a written-out helper that builds the error)
+                ds = [v for k_, v, _ in Locals(tr.node).defs.get(r.ast.exc.id, []) if isinstance(v, ast.Call)]  # type: ignore[union-attr]
+                call = ds[0] if len(ds) == 1 else None
             kws = {k.arg: norm(Locals(tr.node).inline(k.value)) for k in call.keywords} if call else {}
             # building the error must not be able to fail with something else: arguments are plain reads of the response, no decoding / parsing
             TL = Locals(tr.node)
@@ -258,7 +262,7 @@ def _simulate(cfg: CFG, start: int, code: int, ev: Evaluator, undecided: List[st
         nd = cfg.nodes[n]
         nxt: Optional[int] = None
         if nd.kind == "test":
-            t = ev.truth(nd.ast, code)
+            t = bool(nd.ast.value) if isinstance(nd.ast, ast.Constant) else ev.truth(nd.ast, code)
             if t is None:
                 undecided.append(norm(nd.ast))
                 return ("?", "")
@@ -280,6 +284,10 @@ def _simulate(cfg: CFG, start: int, code: int, ev: Evaluator, undecided: List[st
                 v = dotted(nd.ast.value)
                 if v is not None:
                     env[tgt.id] = env.get(v, v)
+                elif isinstance(nd.ast.value, ast.Call) and dotted(nd.ast.value.func) is not None:
+                    # `err = error_class(...)`: an instance of the class the callee name stands for (raised later as `raise err`)
+                    fnm = dotted(nd.ast.value.func) or ""
+                    env[tgt.id] = env.get(fnm, fnm)
                 elif isinstance(nd.ast.value, ast.IfExp):
                     b: Optional[ast.AST] = nd.ast.value
                     while isinstance(b, ast.IfExp):
